@@ -1,6 +1,7 @@
 (* Props/C15.v — C15: reported line, column and context locate the offending byte.
    Statements only; each is closed by [exact] of a lemma proved under Position/. *)
-From Verif Require Import Common.Base Cursor.Model Position.Model Position.Spec Position.Total Position.Proofs.
+From Verif Require Import Common.Base Cursor.Model Position.Model Position.Spec Position.Total
+  Position.Context Position.Caret Position.Proofs.
 
 (* Position never panics and never exhausts its fuel: for every IsGraphic predicate, every byte
    string (valid UTF-8 or not) and every offset it returns a line >= 1, a column >= 1 and a context. *)
@@ -35,6 +36,60 @@ Theorem position_clamp :
     (len data <= offset -> position graphic data offset = position graphic data (len data)).
 Proof. exact position_clamp_proof. Qed.
 Print Assumptions position_clamp.
+
+(* The caret.  The context is a first line l1 (no line feed in it), a line feed, n spaces and '^'.
+   In all three elision regimes and without elision, for line numbers below 100000: the character of the unit
+   at the offset, as displayed (disp: itself if graphic, else U+00B7), is at printed index n of l1; when the
+   offset is at the end of its line (on \n, \r, \r\n or at the end of the text) the caret is just past l1. *)
+Theorem context_caret :
+  forall (graphic : Z -> bool) cps off pre cur post line col ctx,
+    Forall cp_ok cps -> located cps off pre cur post ->
+    position graphic (bytes cps) off = Done (line, col, ctx) -> line < 100000 ->
+    exists l1 n, ctx = l1 ++ 10 :: repeat 32 n ++ [94] /\ ~ In 10 l1 /\ caret_under graphic cur l1 n.
+Proof. exact context_caret_proof. Qed.
+Print Assumptions context_caret.
+
+(* From line 100000 on the caret is NOT under the character: "%5d" is assumed 5 wide.  Witness: 99999 line
+   feeds then "ab", offset of 'b': the context is "100000: ab\n        ^", the caret is under 'a'. *)
+Theorem context_caret_refuted :
+  exists graphic cps off pre cur post line col ctx,
+    Forall cp_ok cps /\ located cps off pre cur post /\
+    position graphic (bytes cps) off = Done (line, col, ctx) /\ 100000 <= line /\
+    forall l1 n, ctx = l1 ++ 10 :: repeat 32 n ++ [94] -> ~ In 10 l1 -> ~ caret_under graphic cur l1 n.
+Proof. exact context_caret_refuted_proof. Qed.
+Print Assumptions context_caret_refuted.
+
+(* What is shown.  For a valid text the printed line is "%5d: ", then a window [lo,hi) of the shown line L
+   (the current line before the offset followed by everything up to the next \n or \r — U+2028/U+2029 do
+   not end it, see the known finding), each character displayed as itself if graphic and as U+00B7 otherwise,
+   with "..." in front iff lo > 0 and behind iff hi < len L; the window contains the column; with the
+   ellipses it is at most 60 characters; a line of at most 60 characters is shown in full. *)
+Theorem context_window :
+  forall (graphic : Z -> bool) cps off pre cur post line col ctx,
+    Forall cp_ok cps -> located cps off pre cur post ->
+    position graphic (bytes cps) off = Done (line, col, ctx) ->
+    exists (front rear : bool) lo hi n,
+      let L := shown_line pre cur post in
+      ctx = pad_left 5 (fmt_d line) ++ [58; 32] ++ ellipsis front ++ map (disp graphic) (slice L lo hi) ++ ellipsis rear
+              ++ [10] ++ repeat 32 n ++ [94] /\
+      0 <= lo <= col - 1 /\ col - 1 <= hi <= len L /\ (col - 1 < len L -> col - 1 < hi) /\
+      (front = true <-> 0 < lo) /\ (rear = true <-> hi < len L) /\
+      len (ellipsis front) + (hi - lo) + len (ellipsis rear) <= 60 /\
+      (len L <= 60 -> lo = 0 /\ hi = len L).
+Proof. exact context_window_proof. Qed.
+Print Assumptions context_window.
+
+(* For all byte strings and offsets: between "%5d: " and the end of the first line there are at most 60
+   characters (ellipses included), and every shown character is graphic or U+00B7. *)
+Theorem context_length :
+  forall (graphic : Z -> bool) data off line col ctx,
+    position graphic data off = Done (line, col, ctx) ->
+    exists (front rear : bool) body n,
+      ctx = pad_left 5 (fmt_d line) ++ [58; 32] ++ ellipsis front ++ body ++ ellipsis rear ++ [10] ++ repeat 32 n ++ [94] /\
+      len (ellipsis front ++ body ++ ellipsis rear) <= 60 /\
+      Forall (fun r => graphic r = true \/ r = 183) body.
+Proof. exact context_length_proof. Qed.
+Print Assumptions context_length.
 
 (* A failing reader is reported as line 1, column 1 with the context of an empty line. *)
 Theorem position_reader_error :
